@@ -45,7 +45,15 @@ func makeIdentities(x *X, n int) []identity {
 		a := fmt.Sprintf("%d.%d.%d.%d", 1+c.Intn(223, "ip-a"), c.Intn(256, "ip-b"), c.Intn(256, "ip-c"), 1+c.Intn(254, "ip-d"))
 		a6 := fmt.Sprintf("2001:db8:%x::%x", c.Intn(65536, "ip6-a"), 1+c.Intn(65535, "ip6-b"))
 		var id identity
-		switch c.Intn(8, "idkind") {
+		switch c.Intn(10, "idkind") {
+		case 8:
+			// a link-local peer: net/http reports it with its zone ("[fe80::1%eth0]:port")
+			z := fmt.Sprintf("fe80::%x:%x%%%s", c.Intn(65536, "ll-a"), 1+c.Intn(65535, "ll-b"), []string{"eth0", "en1", "2", "wlan0.5"}[c.Intn(4, "zone")])
+			id = identity{"peer6-zoned:" + z, reqSpec{client: z}}
+		case 9:
+			// an IPv4 client on a dual-stack listener
+			m := "::ffff:" + a
+			id = identity{"peer4-mapped:" + m, reqSpec{client: m}}
 		case 0:
 			id = identity{"peer4:" + a, reqSpec{client: a}}
 		case 1:
